@@ -379,6 +379,9 @@ var c15Offers = [][]string{
 	{"permessage-deflatex"},
 	{"xpermessage-deflate"},
 	{"PERMESSAGE-DEFLATE"},
+	{"permessage-deflate;\tclient_max_window_bits"},
+	{"foo,\tpermessage-deflate"},
+	{"\tpermessage-deflate\t"},
 	{"permessage-deflate;"},
 	{"foo=\"a, permessage-deflate\""},
 	{"foo; bar=\"a\\\", permessage-deflate, x=\""},
@@ -447,8 +450,15 @@ func c15ClientReplies(ctx *core.Ctx, out *core.Out) {
 	r := ctx.R
 	offerByClient := r.Chance(3, 4)
 	var ext []string
-	kind := r.Intn(12)
+	kind := r.Intn(15)
 	switch kind {
+	case 12:
+		// optional white space in header lists is SP / HTAB
+		ext = []string{"permessage-deflate;\tserver_no_context_takeover;\tclient_no_context_takeover"}
+	case 13:
+		ext = []string{"foo,\tpermessage-deflate; server_no_context_takeover ;\t client_no_context_takeover"}
+	case 14:
+		ext = []string{"permessage-deflate\t; client_no_context_takeover\t;\tserver_no_context_takeover\t"}
 	case 0:
 	case 1, 2, 3:
 		ext = []string{deflateParams}
